@@ -69,7 +69,7 @@ func vmBuild(sc *vmScenario, cfg vmCfg) vmApp {
 		if rq == nil {
 			return c.Next()
 		}
-		c.SetUserContext(vmWith(c.UserContext(), rq))
+		c.SetUserContext(rq.ctx(c.UserContext()))
 		defer func() {
 			if p := recover(); p != nil {
 				rq.log("panic")
